@@ -236,6 +236,7 @@ func runSingleR(v avfs.VFS, ops []fsx.Op) (outs []fsx.Out, verdict sched.Verdict
 	nilHandle = map[int]bool{}
 	r := fsx.NewRunner(v)
 	r.NoOwner = true
+	r.Guard = 0 // the scheduler decides
 	outs = make([]fsx.Out, len(ops))
 	s := sched.New(func() {
 		for i, o := range ops {
